@@ -77,14 +77,11 @@ class Emit:
         return f"emit[{len(self.frames)}]{self.value!r}"
 
 
-_LOCALS = {}
-
-
 def local_names(fn):
     """names the function binds anywhere in its own scope (Python makes them local): parameters, assignment / loop / with / import targets, nested defs"""
-    k = id(fn)
-    if k in _LOCALS:
-        return _LOCALS[k]
+    got = getattr(fn, "_vlocals", None)
+    if got is not None:
+        return got
     out = set()
     a = fn.args
     for x in a.posonlyargs + a.args + a.kwonlyargs:
@@ -109,7 +106,7 @@ def local_names(fn):
         elif isinstance(n, (ast.ListComp, ast.SetComp, ast.DictComp, ast.GeneratorExp)):
             continue
         stack.extend(ast.iter_child_nodes(n))
-    _LOCALS[k] = out
+    fn._vlocals = out
     return out
 
 
@@ -200,6 +197,7 @@ class World:
         self.stores = []             # (base value, index value, stored value, node)
         self.undecided = []          # (node, value, qual)
         self.forks = []              # undecided tests whose arms were found interchangeable
+        self.misreads = []           # Bad values met while reading: the reader cut across what the writer emitted
         self.raises = []             # (node, qual)
         self.frames = []
         self.nframes = 0
@@ -231,7 +229,7 @@ class World:
 
     def reset_trace(self):
         self.emits, self.calls, self.compares, self.whiles, self.stores, self.undecided, self.raises = [], [], [], [], [], [], []
-        self.frames, self.nframes, self.lines_i, self.forks = [], 0, 0, []
+        self.frames, self.nframes, self.lines_i, self.forks, self.misreads = [], 0, 0, [], []
 
 
 def wrap(v):
@@ -768,9 +766,15 @@ class OP4Eval(AutoEvaluator):
             return Unknown(f"undecided conditional {ast.unparse(node.test)}")
         if t is ast.Subscript:
             base = self._ev(node.value)
-            return self.subscript_of(base, node.slice, node)
+            r = self.subscript_of(base, node.slice, node)
+            if is_bad(r) and not is_bad(base):
+                W.misreads.append(r)
+            return r
         if t is ast.Call:
-            return self._call(node)
+            r = self._call(node)
+            if is_bad(r) and not any(r is x for x in W.misreads):
+                W.misreads.append(r)
+            return r
         if t is ast.NamedExpr and isinstance(node.target, ast.Name):
             v = self._ev(node.value)
             self._assign(node.target, v, node)
@@ -1549,7 +1553,7 @@ class OP4Eval(AutoEvaluator):
         W = self.W
         return dict(env=dict(self.env), done=self.done, loopctl=self.loopctl, nret=len(self.returns), raised=self.raised,
                     si=W.stream.i if W.stream is not None else None, li=W.lines_i,
-                    logs=[len(x) for x in (W.emits, W.calls, W.compares, W.whiles, W.stores, W.undecided, W.raises)], alts=list(self.alts))
+                    logs=[len(x) for x in (W.emits, W.calls, W.compares, W.whiles, W.stores, W.undecided, W.raises, W.misreads)], alts=list(self.alts))
 
     def _restore(self, sn, logs=True):
         W = self.W
@@ -1561,7 +1565,7 @@ class OP4Eval(AutoEvaluator):
             W.stream.i = sn["si"]
         W.lines_i = sn["li"]
         if logs:
-            for x, n in zip((W.emits, W.calls, W.compares, W.whiles, W.stores, W.undecided, W.raises), sn["logs"]):
+            for x, n in zip((W.emits, W.calls, W.compares, W.whiles, W.stores, W.undecided, W.raises, W.misreads), sn["logs"]):
                 del x[n:]
 
     def _pos(self):
@@ -1579,7 +1583,7 @@ class OP4Eval(AutoEvaluator):
         self.run(st.orelse)
         b = dict(env=self.env, done=self.done, loopctl=self.loopctl, raised=self.raised, ret=self.returns[pre["nret"]:], pos=self._pos(), alts=list(self.alts))
         # drop what the second arm logged (the first arm's trace stands for both when they merge)
-        for x, n in zip((W.emits, W.calls, W.compares, W.whiles, W.stores, W.undecided, W.raises), mid["logs"]):
+        for x, n in zip((W.emits, W.calls, W.compares, W.whiles, W.stores, W.undecided, W.raises, W.misreads), mid["logs"]):
             del x[n:]
         ok = a["loopctl"] == b["loopctl"] and a["raised"] == b["raised"] and a["alts"] == b["alts"]
         if a["done"] == b["done"] and a["pos"] != b["pos"]:
@@ -1819,7 +1823,7 @@ def items_of(emits, recv=None):
 
 
 # ------------------------------------------------------------------------------------------------------------------ scenarios
-ROWS, COLS, B4 = F.sym("ROWS"), F.sym("COLS"), F.sym("B4")
+ROWS, COLS = F.sym("ROWS"), F.sym("COLS")
 FILE = F.sym("FILE")
 OPAQUE_CORE = {"_sparse_col_stats", "_sparse_sort", "_is_symmetric", "_check_name", "_ensure_dp", "_check_write_names", "_get_ascii_block"}
 OPAQUE = {"_sparse_col_stats", "_sparse_sort", "_is_symmetric", "_check_name", "_ensure_dp", "_check_write_names", "_get_ascii_block",
